@@ -26,7 +26,7 @@ func family(stage, msg string) string {
 		return "unknown-argument"
 	case has("argument:") && has("must be unique"):
 		return "duplicate-argument"
-	case has("is required on field"), has("must not be null"):
+	case has("is required on field"), has("is required on directive"), has("must not be null"):
 		return "required-argument"
 	case has("OneOf input object"):
 		return "oneof"
@@ -72,7 +72,7 @@ func family(stage, msg string) string {
 		return "directive-location"
 	case has("can only be used once at this location"):
 		return "directive-duplicate"
-	case has("must only have one root selection"):
+	case has("must only have one root selection"), has("must not be the introspection field"):
 		return "subscription-root"
 	case has("unexpected token"), has("unexpected literal"), has("external: unexpected"):
 		return "parse"
